@@ -70,7 +70,7 @@ def plan(tier, seed):
         for L in range(1, maxL + 1):
             for P in range(1, 5):
                 for rpc in rpcs(L):
-                    for fs in harness.FS_KINDS:
+                    for fs in harness.FS_KINDS + ("amcfs",):
                         cases.append({"type": tc, "L": L, "P": P, "rpc": rpc, "fs": fs, "block": 0})
         geos = [(1, 1), (2, 3), (3, 2), (4, 4)] if tier == "quick" else [(L, P) for L in range(1, maxL + 1) for P in range(1, 5)]
         for L, P in geos:
@@ -272,7 +272,7 @@ def large_plan(tier):
 def run(res, tier, seed):
     res.rule = (
         "full cross product geometry(L<=4|6 x P<=4) x type x rpc{1..L+2,1024,1e9} x filesystem{mcfs+storage_options,"
-        "local path,file://,memory://} with position-coded samples, plus every (real,imag) pair of 13 float32 bit"
+        "local path,file://,memory://,amcfs (async)} with position-coded samples, plus every (real,imag) pair of 13 float32 bit"
         " patterns / every uint16 pattern rotated over all pixel positions; a case is one product of up to 8 images;"
         " every case loads pixels, so all are non-trivial; distinct = distinct case tuples; plus realistically sized images (640x1000 IU2,"
         " 320x600 C*8: > 1 MiB per chunk at the default rpc) x rpc {default, 64, 1000, 1, 7}, and 120x50000 IU2 / 40x40000 C*8 (one chunk of 12 MiB; 40 MiB in the thorough tier) with"
@@ -284,7 +284,7 @@ def run(res, tier, seed):
     )
     res.assumptions = [
         "signalling-NaN bit patterns are excluded (copy semantics are CPU/NumPy properties)",
-        "filesystems: fsspec local, memory and the harness' mcfs protocol",
+        "filesystems: fsspec local, memory and the harness' mcfs (sync) and amcfs (async implementation) protocols",
     ]
     core.run_cases(res, __name__, plan(tier, seed))
     for idx, case, out in core.pool_map(__name__, "execute_large", [{**c, "seed": seed} for c in large_plan(tier)], chunksize=1):
